@@ -93,7 +93,7 @@ def run_job(spec):
         from symx.shim import shims
         reg = _load(spec['prop'])
         h = reg[spec['harness']]
-        eng = Engine(feas_timeout_ms=spec.get('feas_ms', 500), shard=None, shard_depth=h.shard_depth)
+        eng = Engine(feas_timeout_ms=spec.get('feas_ms', 500), shard=None, shard_depth=h.shard_depth, safe=bool(spec.get('safe')))
         set_engine(eng)
         # work list: decision prefixes still to explore.  A 'split' job explores breadth-first until the frontier is
         # wide enough and hands the frontier back (out['frontier']); subtree jobs start from given prefixes.
@@ -365,6 +365,13 @@ def _schedule(specs, njobs):
                     p.kill()
                 p.join(timeout=10)
                 del running[jid]
+                if dead and not spec.get('safe'):
+                    # the worker was killed by its own safety alarm (a solver call ignored its timeout): once more, with
+                    # every solver call in a hard-killable child
+                    sp2 = dict(spec)
+                    sp2['safe'] = True
+                    pending.append(sp2)
+                    continue
                 r = dict(spec=spec, paths=0, vacuous_paths=0, aborted=0, goals=0, unsat=0, sat=0, unknown=0,
                          nontrivial_paths=0, covers=[], cex=[], samples=[],
                          errors=['worker %s' % ('died without a result' if dead else 'killed: job time limit %ds' % limit)],
@@ -475,7 +482,7 @@ def main(argv=None):
                     sp = {k: v for k, v in r['spec'].items() if k not in ('split_target', '_id')}
                     sp['roots'] = fr[i::nsub]
                     sp['shard'] = 'r%d.%d/%d' % (rnd, i, nsub)
-                    sp['path_budget'] = 120 if rnd < 6 else None     # big subtrees come back and are split again
+                    sp['path_budget'] = 40 if rnd < 8 else None     # big subtrees come back and are split again
                     nxt.append(sp)
         if not nxt:
             break
